@@ -538,6 +538,7 @@ type expectation struct {
 	ncMust, ncMay   map[string]string // git blob sha -> lfs oid
 	rawMust, rawMay map[string]bool   // path
 	rawPairs        map[string]bool   // "commit path" pairs that really are non-pointers at tracked paths in inspected commits (incl. may)
+	rawIndexOnly    map[string]bool   // paths that are raw at a tracked path of the index state (no commit to attribute them to)
 	ncWhy, rawWhy   map[string]string
 }
 
@@ -563,7 +564,7 @@ func raise(m map[string]level, why map[string]string, oid string, l level, reaso
 func expect(sh *shape, assign []form, info *baseInfo, rv revSpec, ex exclSpec, doObjects, doPointers bool) *expectation {
 	initContents()
 	x := &expectation{obj: map[string]level{}, objWhy: map[string]string{}, objAlsoExcluded: map[string]bool{}, ncMust: map[string]string{}, ncMay: map[string]string{},
-		rawMust: map[string]bool{}, rawMay: map[string]bool{}, rawPairs: map[string]bool{}, ncWhy: map[string]string{}, rawWhy: map[string]string{}}
+		rawMust: map[string]bool{}, rawMay: map[string]bool{}, rawPairs: map[string]bool{}, rawIndexOnly: map[string]bool{}, ncWhy: map[string]string{}, rawWhy: map[string]string{}}
 	refsOf := func(t tree) map[string]bool {
 		m := map[string]bool{}
 		for _, e := range t {
@@ -625,6 +626,8 @@ func expect(sh *shape, assign []form, info *baseInfo, rv revSpec, ex exclSpec, d
 				if f == fRaw {
 					if commit != "" {
 						x.rawPairs[commit+" "+e.path] = true
+					} else {
+						x.rawIndexOnly[e.path] = true
 					}
 					if soft {
 						x.rawMay[e.path] = true
